@@ -9,87 +9,88 @@ CHECKS = {
     'C06': dict(
         category='model_checking', design_ref='DESIGN.md section 3, C06',
         technique='explicit-state BFS over call histories on a real Sector (replayed on fresh objects), dedup on (implementation state, reference state), ledger reference model compared after every transition',
-        text='All histories up to depth 3 (quick) / 4 (thorough) over 57 operations (AddCashFlow with 13 term spellings x defining expression x income flag, 3 income exclusions, '
+        text='All histories up to depth 3 (quick) / 4 (thorough) over 59 operations (AddCashFlow with 14 term spellings incl. empty, blank and padded x defining expression x income flag, 3 income exclusions, '
              '12 pre-existing definitions incl. three spellings of zero): F == LAG_F + signed sum, INC == signed sum of non-excluded income flows, definition rule; emitted F/INC rows for depth <= 2.',
         note='Trusted: mc/exact evaluator, the 15-line ledger. Exclusions are read as non-retroactive.'),
     'C09': dict(
         category='exploration', design_ref='DESIGN.md section 3, C09',
         technique='bounded-exhaustive enumeration of full Cartesian parameter grids for the bundled builders, each point solved by the library and compared period by period with a closed-form recursion over exact rationals (gap oracle)',
         text='Full Cartesian grids: SIM / SIMEX1 (alpha1 x alpha2 x theta x 4 G-paths x initial wealth x initial expectation), PC (+ lambda0..2, r-path, initial stocks none/book/all-cash), ModelSIMiterative; '
-             'Y, T, YD, C, H/V, bills, money for k = 1..horizon at solver tolerance 1e-12 and at the default tolerance.',
-        note='Grid points only (<= 4-decimal parameters); ConvergenceError counts as indeterminate. PC: household-side series.'),
+             'Y, T, YD, C, H/V, bills, money for k = 1..horizon at solver tolerance 1e-12 and at the default tolerance; SIM and SIMEX1 embedded in one Model; the builders\' own book configurations (k=0 stocks exact); '
+             'ModelSIMiterative through main() and RunMethod2 incl. the wealth-change series.',
+        note='Grid points only (<= 4-decimal parameters); ConvergenceError counts as indeterminate. PC: household-side series. A RunMethod2 give-up within its own 100-sweep cap is a violation only where a reference iteration of the same scheme settles within 60 sweeps.'),
     'C13': dict(
         category='exploration', design_ref='DESIGN.md section 3, C13',
-        technique='bounded-exhaustive enumeration of (expression, renaming map) pairs for the three public utilities and for Term/Equation/EquationBlock.ReplaceTokensFromLookup; independent regex scanner + evaluation under renamed environments',
+        technique='bounded-exhaustive enumeration of (expression, renaming map) pairs for the three public utilities and for their callers (Term/Equation/EquationBlock.ReplaceTokensFromLookup, the reduction's alias substitution, the qualification step of Sector._CreateFinalEquations); independent regex scanner + evaluation under renamed environments',
         text='Several million pairs: all expressions of <= 3 tokens over the full atom alphabet and <= 5 tokens over a reduced one, compact and padded, x all maps of size <= 2 (swaps, chains, prefixes, absent names, placeholder-shaped targets).',
         note='Trusted: the 10-line scanner regex and Python eval. Output spacing is free; comparison is token-wise.'),
     'C16': dict(
         category='model_checking', design_ref='DESIGN.md section 3, C16',
         technique='exhaustive enumeration of call histories (retrieval / flag changes / caller-side mutation / rendering) replayed on freshly solved real objects; immutable snapshot reference compared after every transition',
-        text='All histories (depth 3 quick / 4 thorough over 33 operations on Model.GetTimeSeries / EquationSolver / TimeSeriesHolder, depth 4 on a BaseSolver subclass): return value == snapshot slice, stored holders == snapshot, rendering == independent rendering of the snapshot and repeatable.',
+        text='All histories (depth 3 quick / 4 thorough over 34 operations, incl. renderings with the default format, on Model.GetTimeSeries / EquationSolver / TimeSeriesHolder, depth 4 on a BaseSolver subclass): return value == snapshot slice, stored holders == snapshot, rendering == independent rendering of the snapshot and repeatable.',
         note='Trusted: the deep snapshot and the 10-line reference renderer.'),
     'C17': dict(
         category='model_checking', design_ref='DESIGN.md section 3, C17',
         technique='exhaustive enumeration of job sequences executed inside one interpreter (process-wide counters and logger state leak between jobs) against baselines computed in separate fresh processes',
-        text='All pairs over 18 jobs x 3 diagnostics settings and all triples over a reduced alphabet; each job\'s complete TimeSeries must equal its fresh-process baseline; re-parsed solvers report exactly the new block.',
+        text='All pairs over 20 jobs (models, blocks, re-solves, re-parses, a second Model() created mid-build, shared function names, in-place exclusion list) x 3 diagnostics settings and all triples (thorough: 4-sequences) over a reduced alphabet of 8 jobs; each job\'s complete TimeSeries must equal its fresh-process baseline; re-parsed solvers report exactly the new block.',
         note='Two baseline interpreters per job are diffed first. Worker processes run many sequences back to back, which only lengthens the histories.'),
     'C19': dict(
         category='exploration', design_ref='DESIGN.md section 3, C19',
         technique='bounded-exhaustive table enumeration on the real TimeSeriesHolder and solver wrapper, parsed back by an independent TSV parser',
-        text='Every subset of <= 4 of 11 series names x 9 value rotations x 3 length profiles x 5 formats, and the history render -> store another series -> render; solved blocks through EquationSolver.GenerateCSVtext(format), holder and step-trace; header, order, row count, every cell.',
+        text='Every subset of <= 4 of 11 series names x 9 value rotations x 3 length profiles x 5 formats, and the history render -> store another series -> render; one solver object used for two blocks; solved blocks through EquationSolver.GenerateCSVtext(format), holder and step-trace; header, order, row count, every cell.',
         note='Alphabetical = code-point or case-insensitive order.'),
     'C02': dict(
         category='exploration', design_ref='DESIGN.md section 3, C02',
         technique='bounded-exhaustive enumeration of equation blocks x solver configurations run on the real EquationSolver; three-valued residual oracle derived from the stop test',
         text='Every block of the menu product (2 and 3 variables, plain and dressed with lag/exogenous/decorative chain/alias/initial condition) x reduction x tolerance x cap, plus '
-             'divergence, transient-error, non-linear and user-function families: on a normal return every value must be finite, lag/exogenous/derived-only variables exact, simultaneous residuals <= 2B.',
+             'divergence, transient-error, non-linear and user-function families, one solver re-used for two systems, two solvers registering different functions under one name, steady-state search in front of a tight solve: on a normal return every value must be finite, lag/exogenous/derived-only variables exact, simultaneous residuals <= 2B.',
         note='Trusted: the bound B (proved from the documented stop test), Python eval as the meaning of a right-hand side. Gap 2B/20B; zero indeterminate cases on the current tree.'),
     'C03': dict(
         category='exploration', design_ref='DESIGN.md section 3, C03',
         technique='bounded-exhaustive differential enumeration: every block of the alias/decorative feature product solved with reduction on and off by the real solver, series compared value by value',
         text='Every block of the feature product: core x alias target kind x chain length x declaration order x alias user x decorative tree x initial-condition position x lag source; same variable set, '
-             'k=0 exactly equal, k>=1 bit-for-bit (acyclic) or within a gap at tolerance 1e-10 (cyclic).',
+             'k=0 exactly equal, k>=1 bit-for-bit (acyclic) or within a gap at tolerance 1e-10 (cyclic); reduction applied twice; steady-state search in front; int-valued decorative constants.',
         note='Alias cycles excluded (documented user error). Trusted: nothing beyond the two runs of the implementation itself.'),
     'C05': dict(
         category='model_checking', design_ref='DESIGN.md section 3, C05',
         technique='explicit enumeration of construction histories (request point x variable x owner x embedding places x country configuration) on the real objects + all topology specs; closure/canonical-name/placeholder/meaning oracle on the emitted text via the independent reader',
-        text='Every construction history of the product: GetVariableName requested right after the sector exists / after all sectors / after early full-code generation (LogInfo), embedded in up to 2 (quick) / 3 (thorough) of 11 places, '
-             'with one country, two countries, an external sector, or a country added after the early generation; plus every topology spec within the deviation bound. Every left-hand side once, canonical names, closed, no _<id>__ token, meaning preserved.',
+        text='Every construction history of the product: GetVariableName requested right after the sector exists / after all sectors / after early full-code generation (LogInfo), embedded in up to 2 (quick) / 3 (thorough) of 13 places (incl. two placeholders in one row, a name clash, a caller editing a returned list), '
+             'with one country, two countries, an external sector, or a country / external sector added after the early generation; plus every topology spec within the deviation bound. Every left-hand side once, canonical names, closed, no _<id>__ token, meaning preserved.',
         note='Trusted: mc/exact.read_block and evaluator. A name that was canonical when handed out and is embedded by the user before a further country is added cannot be rewritten by any library; that history is outside the alphabet.'),
     'C10': dict(
         category='exploration', design_ref='DESIGN.md section 3, C10',
         technique='bounded-exhaustive enumeration of input forms (exogenous specification x length x initial condition position/value x horizon source x time variable x reduction) on the real solver and Model; exact == oracle',
-        text='Every case of the input-form product through EquationSolver and Model (incl. one solver re-used for two blocks): lengths horizon+1, k axis, exogenous series equal to the supplied prefix, k=0 equal to the stated initial condition for 7 kinds of variable, lag identity, t == k, '
+        text='Every case of the input-form product through EquationSolver and Model (incl. one solver re-used for two blocks): lengths horizon+1, k axis, exogenous series equal to the supplied prefix, k=0 equal to the stated initial condition for 7 kinds of variable (9 significant digits through Model, initial gold stock), lag identity, t == k, '
              'short/unevaluable input rejected with no period produced.',
         note='An int scalar may be rejected or broadcast. Rejection = any exception.'),
     'C11': dict(
         category='exploration', design_ref='DESIGN.md section 3, C11',
         technique='bounded-exhaustive enumeration of failure families x caps x tolerances (sweep count read from the public step trace, wall-clock watchdog), of all small affine contractions, and of the complete stdlib name lists',
-        text='(a) 13 failure families switched on in period 1..3 x 7 caps x 2 tolerances x reduction: ValueError/ConvergenceError, <= cap+1 sweeps, equal-length series identical to the shorter-horizon solve; '
+        text='(a) 11 failure families (also with the steady-state search in front) switched on in period 1..3 x 7 caps x 2 tolerances x reduction: ValueError/ConvergenceError, <= cap+1 sweeps, equal-length series identical to the shorter-horizon solve; '
              '(b) all two-variable contractions of the alphabet + n=12 worst cases + non-linear contractions solved within the default cap; (c) 251 names x 3 positions + 182 RHS tokens x reduction x entry point, 10 ill-formed declarations refused with no numbers.',
         note='A case exceeding 20 s wall-clock counts as unbounded work. Contraction => convergence is covered on the stated grid, not proved over the reals.'),
     'C14': dict(
         category='exploration', design_ref='DESIGN.md section 3, C14',
         technique='bounded-exhaustive enumeration of line orders x spacings x lag spellings x hostile comments; real EquationParser compared with the independent classifier; comment-free twin differential; Model description differential',
-        text='All permutations of 6-line endogenous sections (incl. names ending in 0, comment-only lines containing "=", malformed lines), 3 spacings, 3 lag spellings, 14 hostile comment texts on every line, '
-             '5 marker spellings, descriptions/long names through Model.',
+        text='All permutations of 6-line endogenous sections (incl. names ending in 0, comment-only lines containing "=", malformed lines), 3 spacings, 3 lag spellings, 17 hostile comment texts (incl. VT/FF/CR) on every line, '
+             '8 marker spellings, every block also on a parser object that parsed and reduced another block before (all parser lists and bookkeeping compared), descriptions/long names through Model.',
         note='Trusted: mc/exact.read_block (strips the comment first). Lags inside larger expressions and names containing the marker word are outside the alphabet (as in the property).'),
     'C15': dict(
         category='exploration', design_ref='DESIGN.md section 3, C15',
         technique='bounded-exhaustive enumeration of one-/two-state recursive systems x search settings on the real CalculateInitialSteadyState; accepted states stepped once more with exogenous frozen; deep snapshot comparison',
-        text='Every (system, settings) pair of the alphabet: acceptance implies no non-excluded variable moves by more than 2 tol (abs or rel; violated only if both >= 20 tol), rejection is NoEquilibriumError/ValueError, solver inputs untouched.',
+        text='Every (system, settings) pair of the alphabet (one-/two-state systems with read-outs, bare one-state systems incl. quadratic and overflowing ones; horizons 1, 2, 3, 20, 200): acceptance implies every installed value is finite and no non-excluded variable moves by more than 2 tol (abs or rel; violated only if both >= 20 tol), rejection is NoEquilibriumError/ValueError, solver inputs untouched.',
         note='Tolerances {1e-4, 1e-3}: with a looser steady-state tolerance the search solver (which uses it as its sweep tolerance) leaves read-outs one sweep stale, which would make the verdict depend on solver accuracy rather than on steadiness.'),
     'C20': dict(
         category='exploration', design_ref='DESIGN.md section 3, C20',
         technique='bounded-exhaustive enumeration of equation blocks -> real IterativeMachineGenerator -> import and run the emitted module (twice per generator object); residual/exactness/table oracle, differential against the in-process solver',
-        text='Every (block, configuration) pair of the menu product, two emissions each: module runs, MaxTime+1 values, residuals <= 2B, exogenous exact, agreement with EquationSolver from equal k=0 values, header t-first without duplicates.',
+        text='Every (block, configuration) pair of the menu product (dresses incl. loop-state names and equal-and-opposite transfers), two emissions each, one generator object re-used for a second block: module runs, MaxTime+1 values, residuals <= 2B, exogenous exact, agreement with EquationSolver from equal k=0 values, k=0 values as stated, header t-first without duplicates.',
         note='Blocks restricted to contraction factor <= 0.5 (the generated solver has no damping). Files live under /var/tmp/sfcv-c20-<pid> and are removed.'),
     'C01': dict(
         category='model_checking', design_ref='DESIGN.md section 3, C01',
         technique='deviation-bounded exhaustive enumeration of model topologies built with the real constructors; exact rational solution of the emitted equations; conservation sum checked in every (spec, period) state',
         text='Every well-formed topology within the deviation bound of the base economy (5 families: one country, federated zone, two and three '
              'currency zones with external sector, two zones without) is built through the public constructors; Model.main() emits the equations, '
-             'an independent reader + exact Fraction solver solves periods 1..3, and for every currency zone sum dF + FX NET must be exactly 0.',
+             'an independent reader + exact Fraction solver solves periods 1..3, and for every currency zone sum dF + FX NET must be exactly 0; the model\'s zone membership must equal the declared currencies.',
         note='Trusted: mc/exact.py (reader, affine solver; cross-checked against the library float solution on every converged case), mc/topo.py grammar. '
              'Bounded: deviation bound 2 (quick) / 3 (thorough), horizon 3, two-point parameter alphabets; the non-affine PC-style weight uses a float gap oracle.'),
     'C04': dict(
@@ -102,9 +103,9 @@ CHECKS = {
     'C07': dict(
         category='model_checking', design_ref='DESIGN.md section 3, C07',
         technique='exhaustive enumeration of multi-currency topologies x exchange-rate paths; exact rational solution; term-level and FX-net identities in every (spec, period) state; negative family without ExternalSector',
-        text='All two-/three-zone specs in the bound with a cross-currency gift, import supplier or gold government, with unit / constant / time-varying '
+        text='All two-/three-zone specs in the bound with a cross-currency gift (explicit or default income flags), import supplier, gold government or build-time gold purchase, with unit / constant / time-varying '
              'rates: receiver credited amount*XR_s/XR_r, sender debited, sum NET_c*XR_c + NET_NUMERAIRE == 0, numeraire position 0 for paired flows, cross-rate '
-             'variables correct; the same specs without ExternalSector must raise a LogicError with no series produced.',
+             'variables correct, gold market side (NETOZ, GOLDPRICE) correct; the same specs without ExternalSector must raise a LogicError with no series produced.',
         note='Trusted: mc/exact.py, mc/topo.py. Bounded: deviation bound 2/3 (two zones), 1/2 (three zones), horizon 3.'),
     'C08': dict(
         category='model_checking', design_ref='DESIGN.md section 3, C08',
@@ -125,7 +126,7 @@ CHECKS = {
         text='Every AddTerm history up to the depth bound from every leading form is executed on the real Equation/Term classes; each '
              'reached state is compared (exact rationals, 3 prime valuations) with leading expression + signed sum of the added terms. '
              'All term lists up to the length bound go through create_equation_from_terms (value preserved, argument unchanged).',
-        note='Trusted: stdlib ast/fractions and the 200-line evaluator in mc/exact.py. Bounded: term alphabet of 21 spellings, 38 leading forms, depth 3 (quick) / 4 (thorough); Term-object histories over 2 equations to depth 4/5; arithmetic leading expressions only.'),
+        note='Trusted: stdlib ast/fractions and the 200-line evaluator in mc/exact.py. Bounded: term alphabet of 21 spellings, 36 leading forms, depth 3 (quick) / 4 (thorough); Term-object histories over 2 equations to depth 4/5; arithmetic leading expressions only.'),
 }
 
 NOT_YET = 'check not built yet (see DESIGN.md section 3)'
